@@ -60,8 +60,7 @@ def _(self, state):
     requires(rec_has(state.metadata, "is_error"), "a-state-made-by-State()")
     k = self.store_key
     failed = rec_get(state.metadata, "is_error")
-    writes = log_count("TargetStore.store") + log_count("TargetStore.store_metadata")
-    ensures(implies(isnone(k), writes == 0), "without-a-store-key-nothing-is-written")
+    ensures(implies(isnone(k), log_count("TargetStore.store") + log_count("TargetStore.store_metadata") == 0), "without-a-store-key-nothing-is-written")
     ensures(implies(not isnone(k) and failed, log_count("TargetStore.store") == 0 and log_count("TargetStore.store_metadata") == 1
                     and log_arg("TargetStore.store_metadata", "key") == unopt(k)
                     and log_arg("TargetStore.store_metadata", "metadata") == state.metadata),
